@@ -38,6 +38,13 @@ var c14Fams = []selFam{
 	{`pdate`, []string{"lastupdate", "updated"}, []string{"pdat", "updat"}},
 	{`elete`, []string{"deletedAt", "athlete_delete"}, []string{"delet", "eleet"}},
 	{`uer`, []string{"queryId", "conquer"}, []string{"quer_", "user"}},
+	// a counted repetition: the pattern text holds a comma (it reaches the tool through the shell
+	// argument unchanged, whatever the flag parser does with commas in list-valued flags)
+	{`^[a-z]{2,5}_id$`, []string{"user_id", "cart_id"}, []string{"x_id", "longname_id", "User_id"}},
+	// names outside ASCII / with a '/' and a pattern with a literal prefix: a quarter of the lines spell
+	// such names with JSON escapes (\u00e9, \/) — the name is what the escapes decode to
+	{`^prénom`, []string{"prénom", "prénom2"}, []string{"prenom", "nom", "Prénom"}},
+	{`in/out`, []string{"in/out", "login/outbound"}, []string{"in_out", "in\\out"}},
 }
 
 // keys that are part of the command / stage grammar, not field names of the document: the zone key
